@@ -37,8 +37,11 @@ namespace vsym {
   }
 
   struct rat {
-    i128 n = 0;
-    i128 d = 1;
+    i128 n;
+    i128 d;
+    // explicit constructors: with default member initialisers g++ 12 zero-fills the tail of `rat c[4] = {}` (d == 0)
+    constexpr rat() : n(0), d(1) {}
+    constexpr rat(i128 n_, i128 d_) : n(n_), d(d_) {}
     constexpr bool zero() const { return n == 0; }
     constexpr bool operator==(const rat& o) const { return n == o.n && d == o.d; }
   };
@@ -79,7 +82,7 @@ namespace vsym {
 
   //! constant of Q(sqrt2,sqrt3): c[0] + c[1] sqrt2 + c[2] sqrt3 + c[3] sqrt6
   struct cst {
-    rat c[4] = {};
+    rat c[4] = {rat(), rat(), rat(), rat()};
     constexpr bool rational() const { return c[1].zero() && c[2].zero() && c[3].zero(); }
     constexpr bool zero() const { return c[0].zero() && rational(); }
     constexpr bool operator==(const cst& o) const { return c[0] == o.c[0] && c[1] == o.c[1] && c[2] == o.c[2] && c[3] == o.c[3]; }
